@@ -154,7 +154,7 @@ PROPS = {
         ],
     },
     "C14": {
-        "lean_modules": ["DocsModel.Props.C14", "DocsModel.Props.Node"],
+        "lean_modules": ["DocsModel.Props.C14", "DocsModel.Props.Node", "DocsModel.Props.NodeLive"],
         "trusted_base": COMMON_TRUST + [
             "whole-node component (harness/src/apinode.rs, Model/Node.lean, Props/Node.lean): one real in-memory docs node (DocsApi/Doc -> RpcActor -> Engine and live actor -> store actor -> store) driven by one sequential client; every handler of src/api/actor.rs that needs no second node, Engine::{start_sync, leave, subscribe}, the default author, and the protection callback of gc_protect_task are modelled by hand and compared on every run; the theorems of Props/Node.lean lift this property to every history of client requests (node_getMany_eq_spec, node_policy_persists, node_setPolicy, node_peers_run, node_peers_eq_mru5, node_drop_erases, node_drop_frames, node_hashes_exact, node_openInv_reachable, write_events_exact, sub_survives); not modelled there: gossip and connections (no second node), blob import/export, iroh-gossip, irpc delivery (in-process channel, requests handled in order)",
             "async_channel is FIFO with a single consumer, so the order in which requests enter the queue (recorded at the send site on a single-threaded runtime) is the order in which the actor handles them",
